@@ -313,3 +313,197 @@ def runLine (line : String) : String :=
     (p.run rest).1
 
 end Micm.Driver
+
+namespace Micm.Driver
+open Micm
+
+/-! ### builder (C14 / C20): `build <hasSystem> <hasReactions> <ignoreUnused> <reorder> <system> <mech-by-name>` -/
+
+/-- species declaration: name, param flag, hasAtol, atol -/
+def speciesDeclP : P (SpeciesDecl Float) := do
+  let name ← tok; let param ← boolT; let has ← boolT; let v ← flt
+  pure { name, param, atol := if has then some v else none }
+
+def systemP : P (SystemDecl Float) := do
+  let ng ← nat
+  let gas ← many ng speciesDeclP
+  let nph ← nat
+  let phases ← many nph do
+    let pname ← tok; let k ← nat
+    let sp ← many k speciesDeclP
+    pure (pname, sp)
+  pure { gas, phases }
+
+/-- reactions by species *name*: nrx, per reaction nr (name param)… np (name param yield)… -/
+def namedMechP : P (List (Process Float)) := do
+  let nrx ← nat
+  many nrx do
+    let nr ← nat
+    let rs ← many nr do let n ← tok; let p ← boolT; pure (⟨n, p⟩ : SpecRef)
+    let np ← nat
+    let ps ← many np do let n ← tok; let p ← boolT; let y ← flt; pure ((⟨n, p⟩ : SpecRef), y)
+    pure { reactants := rs, products := ps }
+
+def buildCase : P String := do
+  let hasSys ← boolT; let hasRx ← boolT; let ignoreUnused ← boolT; let reorder ← boolT
+  let sys ← systemP
+  let mech ← namedMechP
+  let inp : BuildInput Float := { system := if hasSys then some sys else none,
+                                  reactions := if hasRx then some mech else none, ignoreUnused, reorder }
+  match build (1.0e-3 : Float) (fun ps => (List.range ps.length).map fun i => s!"r{i}") inp with
+  | .error e => pure (errStr e)
+  | .ok b =>
+    let mp := " ".intercalate (b.speciesMap.map fun e => s!"{e.1}:{e.2}")
+    pure s!"build map={mp} names={" ".intercalate b.variableNames} atol={showFs b.atol.toList} nz={showPs b.nonZero}"
+
+/-- standalone `DiagonalMarkowitzReorder` on an n x n 0/1 pattern -/
+def markowitzCase : P String := do
+  let n ← nat
+  let bits ← nats (n * n)
+  let pat : IMat := ((List.range n).map fun i => ((bits.drop (i * n)).take n).toArray).toArray
+  match markowitz n pat with
+  | .ok perm => pure s!"markowitz perm={showNs perm.toList}"
+  | .error e => pure (errStr e)
+
+/-! ### rate constants (C15) -/
+def floatTOps : TOps Float :=
+  { exp := Float.exp, pow := Float.pow, log10 := Float.log10, sqrt := Float.sqrt,
+    ofInt := fun i => Float.ofInt i, lit := id }
+
+def rateKindP : P (RateProc Float) := do
+  let kind ← nat
+  let npr ← nat     -- number of parameterized (third body) reactants
+  let k ← match kind with
+    | 0 => do let v ← flts 5; pure (RateKind.arrhenius (v.getD 0 0) (v.getD 1 0) (v.getD 2 0) (v.getD 3 0) (v.getD 4 0))
+    | 1 => do let v ← flts 8; pure (RateKind.troe (v.getD 0 0) (v.getD 1 0) (v.getD 2 0) (v.getD 3 0) (v.getD 4 0) (v.getD 5 0) (v.getD 6 0) (v.getD 7 0))
+    | 2 => do let v ← flts 8; pure (RateKind.ternary (v.getD 0 0) (v.getD 1 0) (v.getD 2 0) (v.getD 3 0) (v.getD 4 0) (v.getD 5 0) (v.getD 6 0) (v.getD 7 0))
+    | 3 => do let alk ← boolT; let v ← flts 3; let n ← nat; pure (RateKind.branched alk (v.getD 0 0) (v.getD 1 0) (v.getD 2 0) (Int.ofNat n))
+    | 4 => do let v ← flts 3; pure (RateKind.tunneling (v.getD 0 0) (v.getD 1 0) (v.getD 2 0))
+    | 5 => do
+      let l ← tok; let v ← flts 3   -- diffusion coefficient, molecular weight, reaction probability
+      let gasConstant : Float := 1.380649e-23 * 6.02214076e23
+      let mfs := 8.0 * gasConstant / (3.14159265358979323846 * v.getD 1 0)
+      pure (RateKind.surface l (v.getD 0 0) mfs (v.getD 2 0))
+    | _ => do let l ← tok; let s ← flt; pure (RateKind.userDefined l s)
+  pure { kind := k, nParamReactants := npr }
+
+def ratesCase : P String := do
+  let _L ← nat; let ncell ← nat; let nproc ← nat
+  let procs ← many nproc rateKindP
+  let conds ← many ncell do let t ← flt; let p ← flt; let a ← flt; pure ({ temperature := t, pressure := p, airDensity := a } : Conditions Float)
+  let labels := procs.flatMap fun p => p.kind.labels
+  -- parameter values given per label (in label order), per cell
+  let vals ← flts (ncell * labels.length)
+  let params := matOf ncell labels.length vals
+  let pi : Float := 3.14159265358979323846
+  let avogadro : Float := 6.02214076e23
+  let rc := calculateRateConstants floatTOps pi avogadro procs conds.toArray params
+  pure s!"rates labels={" ".intercalate (labels.map fun l => l.replace " " "_")} k={showMat rc}"
+
+/-! ### State histories (C11 / C17 / C20 setters) -/
+
+structure HState where
+  Y : Mat Float
+  K : Mat Float
+  P : Mat Float          -- custom rate parameters
+  sc : Scratch Float
+  atol : Array Float
+  rtol : Float
+  deriving Inhabited
+
+def histCase : P String := do
+  let integ ← nat; let L ← nat; let csc ← boolT; let kind := luKindOf (← nat)
+  let ncell ← nat; let ns ← nat
+  let mech ← mechP
+  let nrx := mech.length
+  let rosP ← if integ == 0 then rosParamsP else pure default
+  let beP ← if integ == 0 then pure default else beParamsP
+  let nops ← nat
+  let m := nameMapOf (List.range ns)
+  match ProcessSet.build mech m with
+  | .error e => pure (errStr e.toErr)
+  | .ok t =>
+  match mkCfg ns L csc kind t with
+  | .error e => pure (errStr e)
+  | .ok pr =>
+    let stages := if integ == 0 then rosP.stages else 1
+    let fresh : HState := { Y := Array.replicate ncell (Array.replicate ns 0.0), K := Array.replicate ncell (Array.replicate nrx 0.0),
+                            P := Array.replicate ncell (Array.replicate nrx 0.0),
+                            sc := freshScratch pr.cfg ncell stages 0.0, atol := Array.replicate ns 1.0e-3, rtol := 1.0e-6 }
+    let mut store : Array (Option HState) := Array.replicate 8 none
+    let mut outs : List String := []
+    for _ in [0:nops] do
+      let op ← tok
+      match op with
+      | "new" =>
+        let s ← nat
+        store := store.setIfInBounds s (some fresh); outs := outs ++ ["ok"]
+      | "setc" =>
+        let s ← nat; let i ← nat; let vals ← flts ncell
+        match store.getD s none with
+        | some st =>
+          let Y := st.Y.mapIdx fun c row => wr row i (vals.getD c 0.0)
+          store := store.setIfInBounds s (some { st with Y }); outs := outs ++ ["ok"]
+        | none => outs := outs ++ ["nostate"]
+      | "setk" =>
+        let s ← nat; let vals ← flts (ncell * nrx)
+        match store.getD s none with
+        | some st => store := store.setIfInBounds s (some { st with K := matOf ncell nrx vals }); outs := outs ++ ["ok"]
+        | none => outs := outs ++ ["nostate"]
+      | "settol" =>
+        let s ← nat; let atl ← flts ns; let rt ← flt
+        match store.getD s none with
+        | some st => store := store.setIfInBounds s (some { st with atol := atl.toArray, rtol := rt }); outs := outs ++ ["ok"]
+        | none => outs := outs ++ ["nostate"]
+      | "garbage" =>
+        let s ← nat; let g ← flt
+        match store.getD s none with
+        | some st => store := store.setIfInBounds s (some { st with sc := freshScratch pr.cfg ncell stages g }); outs := outs ++ ["ok"]
+        | none => outs := outs ++ ["nostate"]
+      | "solve" =>
+        let s ← nat; let dt ← flt
+        match store.getD s none with
+        | some st =>
+          let res := if integ == 0 then rosSolve floatOps floatConsts pr.cfg rosP st.K st.atol st.rtol dt st.Y st.sc 200000
+                     else beSolve (α := Float) floatOps pr.cfg beP st.K st.atol st.rtol dt st.Y st.sc 200000
+          let Yf := clampNonNeg floatOps res.Y
+          store := store.setIfInBounds s (some { st with Y := Yf, sc := res.sc })
+          outs := outs ++ [s!"{statusStr res.status} {showF res.finalTime} {showStats res.stats} {showMat Yf}"]
+        | none => outs := outs ++ ["nostate"]
+      | "dump" =>
+        let s ← nat
+        match store.getD s none with
+        | some st => outs := outs ++ [showMat st.Y]
+        | none => outs := outs ++ ["nostate"]
+      | "cpc" | "cpa" =>
+        let s ← nat; let d ← nat
+        store := store.setIfInBounds d (store.getD s none); outs := outs ++ ["ok"]
+      | "mvc" | "mva" =>
+        let s ← nat; let d ← nat
+        store := store.setIfInBounds d (store.getD s none)
+        if s != d then store := store.setIfInBounds s none
+        outs := outs ++ ["ok"]
+      -- rejected setter calls (C20): the model predicts the documented error; the state is unchanged
+      | "bad_species" => let _ ← nat; outs := outs ++ ["err MICM_State 1"]
+      | "bad_conc_len" => let _ ← nat; outs := outs ++ ["err MICM_State 3"]
+      | "bad_label" => let _ ← nat; outs := outs ++ ["err MICM_State 2"]
+      | "bad_param_len" => let _ ← nat; outs := outs ++ ["err MICM_State 5"]
+      | "bad_conc_scalar" => let _ ← nat; outs := outs ++ [if ncell == 1 then "ok" else "err MICM_State 3"]
+      | "bad_unsafe_cells" => let _ ← nat; outs := outs ++ ["err MICM_State 5"]
+      | "bad_unsafe_params" => let _ ← nat; outs := outs ++ ["err MICM_State 4"]
+      | _ => outs := outs ++ ["bad-op"]
+    pure ("hist " ++ " | ".intercalate outs)
+
+def runLine2 (line : String) : String :=
+  let toks := (line.trimAscii.toString.splitOn " ").filter (· != "")
+  match toks with
+  | [] => ""
+  | cmd :: rest =>
+    match cmd with
+    | "build" => (buildCase.run rest).1
+    | "markowitz" => (markowitzCase.run rest).1
+    | "rates" => (ratesCase.run rest).1
+    | "hist" => (histCase.run rest).1
+    | _ => runLine line
+
+end Micm.Driver
